@@ -154,6 +154,8 @@ CASES = [
     # the frame of a relation literal is that of its FIRST row, in the order written there; the `columns` list of from_text format:json is kept in its order (round-7 seeds C05-14, C05-15)
     ("from [{id = 1, amount = 250, city = 'Oslo'}, {amount = 75, city = 'Rome', id = 2}]\nsort id\n", [(1, 250, "Oslo"), (2, 75, "Rome")]),
     ("from_text format:json '{\"columns\": [\"id\", \"amount\", \"city\"], \"data\": [[1, 250, \"Oslo\"], [2, 75, \"Rome\"]]}'\nfilter amount > 100\n", [(1, 250, "Oslo")]),
+    # a literal without rows still declares its columns, under names that are quoted like every other reference to them (round-7 seed C09-14)
+    ("from_text format:json '{\"columns\": [\"id\", \"Unit Price\", \"order\"], \"data\": []}'\nselect {id, `Unit Price`, `order`}\n", []),
     ("from [{a = 1, b = 2}, {a = 3}]\n", None),
     ("from [{a = 1, b = 2}, {a = 3, c = 4}]\n", None),
     ("from [{a = 1}, 2]\n", None),
